@@ -21,8 +21,8 @@ AXC = ["AX", "AY", "AZ"]
 MIN_A = 1e-5 * 1e-5
 # Findings whose repair in /repo is pending: while a signature is listed here
 # (and has no known_findings.json entry) a hit is logged as a note instead of
-# failing the check.  Both C12 findings are fixed in /repo (9730bb5 translator,
-# 8462ce5 solve_along_surface), so the set is empty: a regression is a VIOLATION.
+# failing the check.  Both C12 findings are fixed in /repo (564387d translator,
+# cd06731 solve_along_surface), so the set is empty: a regression is a VIOLATION.
 PENDING_FIX = set()
 _gated_seen = set()
 
@@ -493,7 +493,7 @@ def check_eval(ctx, exe, n):
     ctx.log("harness done")
     exprs = ["run_eval %s %s %s %s" % (coq_surf(ty, d), v3(p), v3(dr), "true" if on else "false")
              for ty, d, p, dr, on, kind in cases]
-    mvals = ctx.coq_eval("eval", PRE, exprs, chunk=max(50, len(exprs) // 16 + 1))
+    mvals = ctx.coq_eval("eval", PRE, exprs, chunk=min(400, max(50, len(exprs) // 16 + 1)), timeout=1200)
     ctx.log("model evaluated")
     nviol = 0
     found = False
@@ -649,10 +649,12 @@ def oracle_eval(ctx, case, impl, knife, spread, sense_knife, nspread):
         return "intersections not ordered: %r" % ts, None
     Ce = Fr(0) if on else C
     fa, fb = float(A), float(B)
-    window = (ty in ("kx", "ky", "kz", "sq", "gq") and 0 < abs(fa) < 4 * MIN_A) or \
-             (ty[0] == "c" and fa < 4 * MIN_A) or (ty in ("kx", "ky", "kz", "sq", "gq") and fa == 0 and abs(fb) <= 4 * MIN_A)
     # the spheres/cylinders assume |d| = 1: A differs from the code's a by rounding only
     Ma = f_mag((q[0], q[1], [Fr(0)] * 3, Fr(0)), D)
+    # the window test is on the *computed* a (absolute threshold 1e-10, rounding error ~ eps * Ma)
+    wa = 4 * MIN_A + 1024 * EPS * Ma
+    window = (ty in ("kx", "ky", "kz", "sq", "gq") and 0 < abs(fa) < wa) or \
+             (ty[0] == "c" and fa < wa) or (ty in ("kx", "ky", "kz", "sq", "gq") and abs(fa) < wa and abs(fb) <= 4 * MIN_A)
     absP = [abs(x) for x in P]
     Mb = float(sum((2 * abs(q[0][k]) * absP[k] + abs(q[2][k])) * abs(D[k]) for k in range(3))
                + (abs(q[1][0]) * (absP[1] * abs(D[0]) + absP[0] * abs(D[1])) + abs(q[1][1]) * (absP[2] * abs(D[1]) + absP[1] * abs(D[2]))
@@ -662,6 +664,10 @@ def oracle_eval(ctx, case, impl, knife, spread, sense_knife, nspread):
         resid = A * T * T + 2 * B * T + Ce
         slope = abs(2 * A * T + 2 * B)
         dt = 1e-9 * t + 512 * spread[i] + 1e-300
+        if fa != 0:
+            # the code forms the small root as -hb/a -+ sqrt(...): absolute rounding error ~ eps |hb / a|
+            # (the cancellation that the 1e-10 window is there to bound)
+            dt += 16 * EPS * abs(fb / fa)
         tol = float(slope) * dt + abs(fa) * dt * dt + 64 * EPS * (f_mag(q, [P[k] + T * D[k] for k in range(3)]))
         # a-priori bound: rounding of the computed coefficients a, hb, c (sums of the absolute values of their terms)
         tol += 64 * EPS * (t * t * Ma + 2 * t * Mb + mag) + 8 * EPS * t * float(slope)
@@ -826,7 +832,7 @@ def check_transforms(ctx, exe, n):
     for cmd, ty, d, R, tra, pts in cases:
         pl = "[" + "; ".join(v3(p) for p in pts) + "]"
         if cmd == "xlate":
-            exprs.append("run_xlate true %s %s %s" % (v3(tra), coq_surf(ty, d), pl))     # as coded (9730bb5)
+            exprs.append("run_xlate true %s %s %s" % (v3(tra), coq_surf(ty, d), pl))     # as coded (564387d)
             exprs.append("run_xlate false %s %s %s" % (v3(tra), coq_surf(ty, d), pl))    # before the repair
         elif cmd == "xform":
             exprs.append("run_xform (TF (M3 %s %s %s) %s) %s %s" % (v3(R[0]), v3(R[1]), v3(R[2]), v3(tra), coq_surf(ty, d), pl))
@@ -834,7 +840,7 @@ def check_transforms(ctx, exe, n):
             exprs.append("run_simpl %s %s" % (hexf(1e-10), coq_surf(ty, d)))
     for ax, turn in rots:
         exprs.append("run_mkrot %s %s %s" % (v3(ax), hexf(math.sin(2 * math.pi * turn)), hexf(math.cos(2 * math.pi * turn))))
-    mvals = ctx.coq_eval("xf", PRE, exprs, chunk=max(20, len(exprs) // 16 + 1))
+    mvals = ctx.coq_eval("xf", PRE, exprs, chunk=min(300, max(20, len(exprs) // 16 + 1)), timeout=1200)
     mi = 0
     found = False
     nviol = 0
